@@ -13,6 +13,7 @@ import (
 	"os"
 	"runtime/debug"
 	"sort"
+	"sync"
 	"testing"
 	"time"
 
@@ -71,6 +72,8 @@ type phRun struct {
 	reqFree int                    // free slots of the outbound re-observation request queue before the current step
 	store   *db.Database
 	stopRun func()
+	deadMu  sync.Mutex
+	deadMsg string
 	down    bool                   // the store was closed by a StoreDown step
 	lastDB  map[string]interface{} // last projection of the store while it answered
 	ownDB   *db.Database
@@ -547,12 +550,16 @@ func (r *phRun) step(st vhStep) {
 	}
 	panicked := ""
 	func() {
+		completed := false
 		defer func() {
-			if x := recover(); x != nil {
+			// `completed` rather than recover() != nil: under the module's go 1.19 semantics panic(nil) makes
+			// recover() return nil although the call was aborted
+			if x := recover(); x != nil || !completed {
 				panicked = fmt.Sprintf("%v\n%s", x, debug.Stack())
 			}
 		}()
 		call()
+		completed = true
 	}()
 	out := r.drain(signStep)
 	r.w.trace.Emit(r.sc, st.Ev, st.A, r.projState(out, panicked))
@@ -562,7 +569,26 @@ func (r *phRun) step(st vhStep) {
 
 // deliver performs one channel send to the Run loop; false when Run is gone or does not take it within the deadline.
 func (r *phRun) deliver(try func(deadline <-chan time.Time) bool) bool {
-	return try(time.After(5 * time.Second))
+	// the "deadline" channel also fires as soon as the Run goroutine has ended (panic or return), so that a dead
+	// loop is noticed at once instead of after the full deadline
+	d := make(chan time.Time, 1)
+	stop := make(chan struct{})
+	defer close(stop)
+	go func() {
+		select {
+		case t, ok := <-r.runDead:
+			if ok {
+				r.deadMu.Lock()
+				r.deadMsg = t
+				r.deadMu.Unlock()
+			}
+			d <- time.Now()
+		case <-time.After(5 * time.Second):
+			d <- time.Now()
+		case <-stop:
+		}
+	}()
+	return try(d)
 }
 
 // sync returns once every handler started before it has finished: Run can only receive the (undecodable, hence
@@ -596,6 +622,12 @@ func (r *phRun) ownObservationsHandled() int {
 }
 
 func (r *phRun) deadText() string {
+	r.deadMu.Lock()
+	m := r.deadMsg
+	r.deadMu.Unlock()
+	if m != "" {
+		return m
+	}
 	select {
 	case t := <-r.runDead:
 		return t
@@ -622,6 +654,7 @@ func (r *phRun) stepLoop(st vhStep, send func() bool, signStep bool) {
 		r.w.trace.Emit(r.sc, st.Ev, st.A, r.projState(r.drain(false), r.deadText()))
 		r.loopMode = false // the loop is gone: nothing more can be delivered
 		r.runDead = nil
+		phLoopDeaths++
 		return
 	}
 	out := r.drain(signStep)
@@ -663,6 +696,10 @@ func (r *phRun) stepLoop(st vhStep, send func() bool, signStep bool) {
 
 var phLoopbackMissing int
 
+// phLoopDeaths counts Run loops that ended by themselves (panic / return) in this replay; after a few of them the
+// verdict is decided and the remaining histories are not pushed through further dying loops.
+var phLoopDeaths int
+
 // phReqCap: capacity of the outbound re-observation request queue of a scenario ("ReqCap" pseudo-step, default large).
 func phReqCap(sc vhScenario) int {
 	for _, st := range sc.Steps {
@@ -690,19 +727,29 @@ func (r *phRun) start() {
 		r.runDead = dead
 		p := r.p
 		go func() {
+			returned := false
 			defer func() {
-				if x := recover(); x != nil {
+				if x := recover(); x != nil || !returned {
 					dead <- fmt.Sprintf("%v\n%s", x, debug.Stack())
 				}
 			}()
 			err := p.Run(ctx)
+			returned = true
 			dead <- fmt.Sprintf("Run returned: %v", err)
 		}()
+		r.deadMu.Lock()
+		r.deadMsg = ""
+		r.deadMu.Unlock()
 		r.stopRun = func() {
 			cancel()
-			select {
-			case <-dead:
-			case <-time.After(5 * time.Second):
+			r.deadMu.Lock()
+			gone := r.deadMsg != ""
+			r.deadMu.Unlock()
+			if !gone {
+				select {
+				case <-dead:
+				case <-time.After(5 * time.Second):
+				}
 			}
 			r.stopRun = nil
 		}
@@ -737,6 +784,9 @@ func (w *phWorld) runScenario(sc vhScenario) {
 		}
 	}
 	if os.Getenv("VERIF_RUNLOOP") != "" {
+		if phLoopDeaths >= 5 {
+			return
+		}
 		r.loopMode = true
 		r.lockC = make(chan *common.MessagePublication)
 		r.setC = make(chan *common.GuardianSet)
